@@ -89,7 +89,9 @@ def real_tracebacks():
 
 
 def is_standard(text):
-    lines = text.strip('\n').splitlines()
+    # exactly what the statement says: the *last line* is 'Type: message' (one final newline is still that
+    # line; a trailing blank line is not)
+    lines = text.lstrip('\n').splitlines()
     if len(lines) < 3 or lines[0].strip() != 'Traceback (most recent call last):':
         return None
     last = lines[-1]
